@@ -22,21 +22,38 @@
 (* half of the verification key over exactly <<ctx, protected, aad,        *)
 (* payload>> and has a well-formed length; otherwise FALSE or Error        *)
 (* (either is allowed); never a crash.                                     *)
+(*                                                                         *)
+(* Signer options (SignOpts).  Sign1.Sign takes a crypto.Signer and        *)
+(* crypto.SignerOpts chosen by the caller.  For every key kind and every   *)
+(* class of options a caller can pass (nil, a hash, *rsa.PSSOptions with   *)
+(* every class of salt length and hash) Sign has exactly two outcomes: it  *)
+(* returns an error (only where the combination is not one the library     *)
+(* documents as supported), or it produces an object that is labelled with *)
+(* an algorithm of that key and whose signature conforms to that algorithm *)
+(* (sig.scheme: padding, salt length, fixed-width encoding), i.e. one that *)
+(* verifies with the matching key after encode / transmit / decode.  There *)
+(* is no outcome "signed, but does not verify".                            *)
+(*                                                                         *)
+(* The protected header is a byte string holding the serialized header     *)
+(* map.  Besides another map ("h1") the adversary can make the byte string *)
+(* hold the honest map inexactly ("h0-inexact": followed by more bytes, or *)
+(* cut short): different protected bytes, which must not verify.           *)
 (***************************************************************************)
 EXTENDS Integers, Sequences, FiniteSets, TLC
 
 CONSTANTS
     Algs,           \* algorithms enumerated, subset of AllAlgs
     PayloadKinds,   \* payload kinds (data level, expanded by the concretizer)
-    MaxAlter        \* number of fields altered in one behaviour
+    MaxAlter,       \* number of fields altered in one behaviour
+    OptsKeys        \* key kinds for which the signer-options dimension is enumerated ({}: off)
 
 VARIABLES
-    cfg,        \* [alg, pk, det, aad]: the configuration of this behaviour
+    cfg,        \* [alg, pk, det, aad, key, opts]: the configuration of this behaviour
     obj,        \* the object the signer produced
     wire,       \* the object the verifier decoded
     args,       \* the verifier's arguments [key, payload, aad]
     verdict,    \* "none" | "TRUE" | "FALSE" | "Error"
-    phase,      \* "init" | "signed" | "received" | "verified"
+    phase,      \* "init" | "signed" | "received" | "verified" | "refused" (Sign returned an error)
     trail       \* the alterations applied, in order (history)
 
 vars == <<cfg, obj, wire, args, verdict, phase, trail>>
@@ -60,6 +77,38 @@ Structure(a) == IF Family(a) = "hmac" THEN "Mac0" ELSE "Sign1"
 Context(s) == IF s = "Mac0" THEN "MAC0" ELSE "Signature1"
 Tag(s) == IF s = "Mac0" THEN 17 ELSE 18
 
+(* Algorithms the library registers beyond the eight of the property (labels *)
+(* an object may carry when the caller asks for SHA-512 or signs with P-521).*)
+ExtAlgs == {"ES512", "RS512", "PS512"}
+KnownAlgs == AllAlgs \cup ExtAlgs
+ExtId(a) == CASE a = "ES512" -> -36 [] a = "RS512" -> -259 [] a = "PS512" -> -39
+LabelId(a) == IF a \in AllAlgs THEN AlgId(a) ELSE ExtId(a)
+
+(* Signer options: classes of crypto.SignerOpts values.                     *)
+SignerKeys == {"P-256", "P-384", "P-521", "RSA-2048", "RSA-3072"}
+OptHashes == {"SHA256", "SHA384", "SHA512", "SHA1", "none"}          \* none: crypto.Hash(0)
+Salts == {"equalsHash", "auto", "hashSize", "otherPositive", "otherNegative"}
+Opt(kind, h, salt) == [kind |-> kind, hash |-> h, salt |-> salt]
+DefaultOpts == Opt("default", "-", "-")       \* the documented options of the algorithm (behaviours of Sign)
+OptsClasses == {Opt("nil", "-", "-")} \cup {Opt("hash", h, "-") : h \in OptHashes}
+               \cup {Opt("pss", h, sl) : h \in OptHashes, sl \in Salts}
+
+IsEC(kk) == kk \in {"P-256", "P-384", "P-521"}
+(* the algorithms an object signed with a key of kind kk can be labelled with *)
+AlgsOfKey(kk) == CASE kk = "P-256" -> {"ES256"} [] kk = "P-384" -> {"ES384"} [] kk = "P-521" -> {"ES512"}
+                   [] OTHER -> {"RS256", "RS384", "RS512", "PS256", "PS384", "PS512"}
+(* the combinations Sign1.Sign documents as supported, with the label they produce: *)
+(* EC keys need no options (or name their hash); RSA keys of the FDO sizes with     *)
+(* their hash (PKCS #1 v1.5) or PSS options whose salt is as long as the hash       *)
+Supported(kk, o) ==
+    CASE kk = "P-256" /\ (o.kind = "nil" \/ (o.kind = "hash" /\ o.hash = "SHA256")) -> "ES256"
+      [] kk = "P-384" /\ (o.kind = "nil" \/ (o.kind = "hash" /\ o.hash = "SHA384")) -> "ES384"
+      [] kk = "RSA-2048" /\ o.kind = "hash" /\ o.hash = "SHA256" -> "RS256"
+      [] kk = "RSA-3072" /\ o.kind = "hash" /\ o.hash = "SHA384" -> "RS384"
+      [] kk = "RSA-2048" /\ o.kind = "pss" /\ o.hash = "SHA256" /\ o.salt \in {"equalsHash", "hashSize"} -> "PS256"
+      [] kk = "RSA-3072" /\ o.kind = "pss" /\ o.hash = "SHA384" /\ o.salt \in {"equalsHash", "hashSize"} -> "PS384"
+      [] OTHER -> "none"
+
 Keys == {"k", "f", "x"}     \* the signer's key, a foreign key of the same kind, a foreign key of another kind
 Priv(k) == "priv-" \o k
 LenClasses == {"ok", "zero", "one", "odd", "short", "long"}
@@ -72,7 +121,7 @@ None == [struct |-> "none"]
 
 -----------------------------------------------------------------------------
 Init ==
-    /\ cfg = [alg |-> "none", pk |-> "none", det |-> FALSE, aad |-> FALSE]
+    /\ cfg = [alg |-> "none", pk |-> "none", det |-> FALSE, aad |-> FALSE, key |-> "none", opts |-> DefaultOpts]
     /\ obj = None /\ wire = None
     /\ args = [key |-> "k", payload |-> "nil", aad |-> "none"]
     /\ verdict = "none" /\ phase = "init" /\ trail = <<>>
@@ -81,18 +130,36 @@ OrigAad == IF cfg.aad THEN "a0" ELSE "none"
 OrigArgs == [key |-> "k", payload |-> IF cfg.det THEN "p0" ELSE "nil", aad |-> OrigAad]
 
 (* Sign1.Sign / Mac0.Digest: the algorithm goes into the protected header, *)
-(* the signature covers context, protected header, external data, payload. *)
+(* the signature covers context, protected header, external data, payload  *)
+(* and is made the way the labelled algorithm prescribes (scheme).         *)
+Produce(a, s, det, aadp) ==
+    LET aadv == IF aadp THEN "a0" ELSE "none"
+        prot == [alg |-> a, extra |-> "h0"]
+    IN /\ obj' = [struct |-> s, prot |-> prot, payload |-> IF det THEN "nil" ELSE "p0",
+                  sig |-> [by |-> Priv("k"), over |-> <<Context(s), prot, aadv, "p0">>, len |-> "ok", scheme |-> a]]
+       /\ args' = [key |-> "k", payload |-> IF det THEN "p0" ELSE "nil", aad |-> aadv]
+
 Sign(a, pk, det, aadp) ==
     /\ phase = "init"
-    /\ cfg' = [alg |-> a, pk |-> pk, det |-> det, aad |-> aadp]
-    /\ LET aadv == IF aadp THEN "a0" ELSE "none"
-           prot == [alg |-> a, extra |-> "h0"]
-           s == Structure(a)
-       IN /\ obj' = [struct |-> s, prot |-> prot, payload |-> IF det THEN "nil" ELSE "p0",
-                     sig |-> [by |-> Priv("k"), over |-> <<Context(s), prot, aadv, "p0">>, len |-> "ok"]]
-          /\ args' = [key |-> "k", payload |-> IF det THEN "p0" ELSE "nil", aad |-> aadv]
+    /\ cfg' = [alg |-> a, pk |-> pk, det |-> det, aad |-> aadp, key |-> KeyFor(a), opts |-> DefaultOpts]
+    /\ Produce(a, Structure(a), det, aadp)
     /\ phase' = "signed"
     /\ UNCHANGED <<wire, verdict, trail>>
+
+(* Sign1.Sign with a key of kind kk and caller-chosen options o. *)
+SignOpts(kk, o, pk, det, aadp) ==
+    /\ phase = "init"
+    /\ \/ \* Sign returns an error (never for a supported combination); nothing is produced
+          /\ Supported(kk, o) = "none"
+          /\ cfg' = [alg |-> "none", pk |-> pk, det |-> det, aad |-> aadp, key |-> kk, opts |-> o]
+          /\ phase' = "refused"
+          /\ UNCHANGED <<obj, wire, args, verdict, trail>>
+       \/ \* Sign succeeds: a supported combination gets its label, any other one a label of that key
+          \E a \in (IF Supported(kk, o) # "none" THEN {Supported(kk, o)} ELSE AlgsOfKey(kk)) :
+              /\ cfg' = [alg |-> a, pk |-> pk, det |-> det, aad |-> aadp, key |-> kk, opts |-> o]
+              /\ Produce(a, "Sign1", det, aadp)
+              /\ phase' = "signed"
+              /\ UNCHANGED <<wire, verdict, trail>>
 
 (* cbor.Marshal of the tagged form, cbor.Unmarshal at the receiver. *)
 Transmit ==
@@ -105,7 +172,7 @@ Transmit ==
 (* at most once, in the order of Fields).                                  *)
 Values(f) ==
     CASE f = "sig" -> {"flipped"}
-      [] f = "protected" -> {"h1"}
+      [] f = "protected" -> {"h1", "h0-inexact"}
       [] f = "payload" -> {"p1", "nil"}
       \* the verifier names a payload of its own although the object embeds one (Sign1.Verify only)
       [] f = "argpayload" -> IF ~cfg.det /\ Structure(cfg.alg) = "Sign1" THEN {"p1"} ELSE {}
@@ -116,6 +183,7 @@ Values(f) ==
 
 Alter(f, v) ==
     /\ phase = "received"
+    /\ cfg.opts = DefaultOpts           \* alterations are enumerated for the documented options
     /\ Len(trail) < MaxAlter
     /\ \A k \in 1..Len(trail) : FieldIndex(trail[k].field) < FieldIndex(f)
     /\ v \in Values(f)
@@ -136,9 +204,10 @@ PayloadUsed == IF args.payload # "nil" THEN args.payload ELSE wire.payload
 
 Accepts ==
     /\ PayloadUsed # "nil"
-    /\ wire.prot.alg \in AllAlgs
+    /\ wire.prot.alg \in KnownAlgs
     /\ wire.sig.len = "ok"
     /\ wire.sig.by = Priv(args.key)
+    /\ wire.sig.scheme = wire.prot.alg
     /\ wire.sig.over = <<Context(wire.struct), wire.prot, args.aad, PayloadUsed>>
 
 Verify ==
@@ -149,6 +218,8 @@ Verify ==
 
 Next ==
     \/ \E a \in Algs, pk \in PayloadKinds, det \in BOOLEAN, aadp \in BOOLEAN : Sign(a, pk, det, aadp)
+    \* (the options do not interact with the payload mode: detached payloads go with external data here)
+    \/ \E kk \in OptsKeys, o \in OptsClasses, pk \in PayloadKinds, det \in BOOLEAN : SignOpts(kk, o, pk, det, det)
     \/ Transmit
     \/ \E i \in 1..Len(Fields) : \E v \in Values(Fields[i]) : Alter(Fields[i], v)
     \/ Verify
@@ -161,7 +232,8 @@ View == <<cfg, obj, wire, args, verdict, phase, Len(trail)>>
 (* Properties                                                              *)
 
 TypeOK ==
-    /\ phase \in {"init", "signed", "received", "verified"}
+    /\ phase \in {"init", "signed", "received", "verified", "refused"}
+    /\ OptsKeys \subseteq SignerKeys
     /\ verdict \in {"none", "TRUE", "FALSE", "Error"}      \* there is no "Crash" outcome
     /\ args.key \in Keys /\ args.payload \in Payloads /\ args.aad \in Aads
     /\ phase \in {"received", "verified"} => wire.sig.len \in LenClasses
@@ -174,8 +246,8 @@ VerifyExact ==
     phase = "verified" =>
         (verdict = "TRUE" <=> /\ wire.sig.by = Priv(args.key)
                               /\ wire.sig.over = <<Context(wire.struct), wire.prot, args.aad, PayloadUsed>>
-                              /\ wire.sig.len = "ok"
-                              /\ PayloadUsed # "nil" /\ wire.prot.alg \in AllAlgs)
+                              /\ wire.sig.len = "ok" /\ wire.sig.scheme = wire.prot.alg
+                              /\ PayloadUsed # "nil" /\ wire.prot.alg \in KnownAlgs)
 
 (* ... and as the property reads: what was signed verifies after encode /  *)
 (* transmit / decode with the matching key,                                *)
@@ -190,6 +262,16 @@ AlterationsDiffer == (phase \in {"received", "verified"} /\ trail # <<>>) => ~Un
 
 (* the signature of an honest object covers all four parts                 *)
 CoversAll ==
-    phase # "init" =>
+    phase \notin {"init", "refused"} =>
         obj.sig.over = <<Context(obj.struct), obj.prot, OrigAad, "p0">> /\ obj.prot.alg = cfg.alg
+
+(* Signer options: whatever the caller passes, Sign either returns an error *)
+(* or its product verifies (a refusal is final and produces nothing);      *)
+SignedOrRefused ==
+    /\ phase = "refused" => (obj = None /\ Supported(cfg.key, cfg.opts) = "none")
+    /\ (phase \notin {"init", "refused"}) =>
+           (obj.prot.alg \in KnownAlgs /\ obj.sig.scheme = obj.prot.alg /\ obj.sig.by = Priv("k"))
+(* and what Sign produced from non-default options is never altered here:  *)
+(* its verdict is the verdict of the honest verifier.                       *)
+OptsVerify == (phase = "verified" /\ cfg.opts # DefaultOpts) => (Unaltered /\ verdict = "TRUE")
 =============================================================================
